@@ -800,7 +800,11 @@ func (hm *HandshakeManager) beginHandshake(via ViaSender, packet []byte, h *head
 
 	hostinfo.remotes = f.lightHouse.QueryCache(vpnAddrs)
 	if !via.IsRelayed {
-		hostinfo.SetRemote(via.UdpAddr)
+		// The remote list is shared with the tunnels we already hold for this peer (and, on a lighthouse, it is what we
+		// hand to askers): only a handshake that is accepted may teach it an address. Until then the source is kept on
+		// this hostinfo alone, so that a replayed stage 1 from somewhere else changes nothing.
+		remote := via.UdpAddr
+		hostinfo.remote.Store(&remote)
 	}
 	hostinfo.buildNetworks(f.myVpnNetworksTable, remoteCert.Certificate)
 
@@ -808,6 +812,9 @@ func (hm *HandshakeManager) beginHandshake(via ViaSender, packet []byte, h *head
 	if err != nil {
 		hm.handleCheckAndCompleteError(err, existing, hostinfo, via)
 		return
+	}
+	if !via.IsRelayed {
+		hostinfo.remotes.LearnRemote(hostinfo.vpnAddrs[0], via.UdpAddr)
 	}
 
 	hm.sendHandshakeResponse(via, response, hostinfo, false)
@@ -899,7 +906,10 @@ func (hm *HandshakeManager) continueHandshake(via ViaSender, hh *HandshakeHostIn
 	hostinfo.lastHandshakeTime = result.HandshakeTime
 
 	if !via.IsRelayed {
-		hostinfo.SetRemote(via.UdpAddr)
+		// Who answered is not known yet: keep the source on this hostinfo alone (the close message for a wrong responder
+		// goes there). The shared remote list learns it only once the intended host has been recognised below.
+		remote := via.UdpAddr
+		hostinfo.remote.Store(&remote)
 	} else {
 		hostinfo.relayState.InsertRelayTo(via.relayHI.vpnAddrs[0])
 	}
@@ -981,6 +991,9 @@ func (hm *HandshakeManager) continueHandshake(via ViaSender, hh *HandshakeHostIn
 
 	hostinfo.vpnAddrs = vpnAddrs
 	hostinfo.buildNetworks(f.myVpnNetworksTable, remoteCert.Certificate)
+	if !via.IsRelayed && hostinfo.remotes != nil {
+		hostinfo.remotes.LearnRemote(hostinfo.vpnAddrs[0], via.UdpAddr)
+	}
 
 	hm.Complete(hostinfo, f)
 
